@@ -169,6 +169,15 @@ func init() {
 	vf("vfLocksHeld", func(in *Interp, th *Thread, fn *ssa.Function, a []Value) (Value, bool) {
 		return in.i64(int64(in.locksHeld())), true
 	})
+	vf("vfLockDiscipline", func(in *Interp, th *Thread, fn *ssa.Function, a []Value) (Value, bool) {
+		// vfLockDiscipline(stripes []*sync.RWMutex) int
+		sl := a[0].(Slice)
+		var ps []Ptr
+		for i := 0; i < sl.Len; i++ {
+			ps = append(ps, sl.Arr.V[sl.Off+i].(Ptr))
+		}
+		return in.i64(int64(in.lockDiscipline(ps))), true
+	})
 	vf("vfEvent", func(in *Interp, th *Thread, fn *ssa.Function, a []Value) (Value, bool) {
 		s := in.str(a[0])
 		if s.IsConcrete() {
